@@ -156,6 +156,7 @@ type Engine struct {
 	Witnesses     []*Cex
 	pathReach     []string
 	crashTree     func(model map[string]uint64) []FSEntry
+	lastPanicWhere string
 }
 
 type pathAbort struct{}
@@ -483,6 +484,7 @@ func (e *Engine) rollback() {
 
 // rtPanic raises a Go run-time panic in the target program.
 func (e *Engine) rtPanic(msg string) {
+	e.lastPanicWhere = e.whereAmI()
 	if e.rtErrT != nil {
 		panic(targetPanic{Iface{T: e.rtErrT, V: mkStr(msg)}})
 	}
@@ -795,7 +797,7 @@ func (e *Engine) onUncaughtPanic(v Value) {
 	r, m := e.check(nil, e.inputTerms())
 	if r == smt.Sat {
 		st.Sat++
-		e.recordCex(label, m, "uncaught panic: "+toStringDebug(v))
+		e.recordCex(label, m, "uncaught panic: "+toStringDebug(v)+" at "+e.lastPanicWhere)
 	} else if r == smt.Unknown {
 		st.Unknown++
 	}
